@@ -16,7 +16,7 @@ Translation scheme (trusted):
   * one flow per path: `if`/`elif`/`else`, conditional expressions, `a or b` used as a value and `x.get(k, <reg>)`
     split the path; `for` = zero / one iteration, and a further one when the first changed what the checker knows at
     the loop head (taint flag, typing of the values the body reads first), the loop variable read out of the iterated
-    object; `try` = the body may be left before any of its statements; straight-line only (no while / with / finally).
+    object; `try` = the body may be left before any of its statements; `while` = like `for`, the test evaluated before every iteration; no with / finally.
     Paths that are implied by another one are dropped: `check` is prefix-closed and monotone in typing and taint
     (Proofs/Alias_proofs.v: check_prefix_closed, check_from_mono), see `subsumed`, `prune`, `prune_prefixes`.
   * every value is an atom (certainly immutable: literals, f-strings, comparisons, parameters declared atoms)
@@ -141,6 +141,8 @@ METHODS = {
     "revoke": C(writes=["recv"]), "set_expires_at": C(writes=["recv"]),
     "get_metadata_claim": C("unknown"), "get_preference": C("unknown"), "get_usage": C("unknown"),
     "get_set": C("fresh"), "get_base": C("unknown"),
+    # the encrypter held by a DefaultToken handler / the session manager: bytes in, bytes out
+    "encrypt": C(), "decrypt": C(),
 }
 # functions, by (resolved) name
 FUNCTIONS = {
@@ -167,6 +169,9 @@ FUNCTIONS = {
     "idpyoidc.server.client_authn.valid_client_secret": C(),
     "idpyoidc.server.util.allow_refresh_token": C(),
     "idpyoidc.util.split_uri": C("fresh"),
+    "idpyoidc.server.token.is_expired": C(), "idpyoidc.server.util.lv_pack": C(), "idpyoidc.server.util.lv_unpack": C("fresh"),
+    "base64.b64encode": C(), "base64.b64decode": C(), "cryptojwt.jws.utils.left_hash": C(),
+    "cryptojwt.jws.jws.factory": C("fresh"),
 }
 
 # ------------------------------------------------------------------------------------------ targets
@@ -284,6 +289,47 @@ TARGETS = [
       {"req": "fresh", "kwargs": "kwargs"}, self_root="helper"),
     T("ProviderConfiguration.process_request", "idpyoidc.server.oidc.provider_config:ProviderConfiguration.process_request",
       {"request": "fresh", "kwargs": "kwargs"}, self_root="endpoint"),
+    # -- the long-lived token handlers (session_manager.token_handler.handler[...]): what minting / reading a token does to
+    #    the handler object itself (`self` is a static root: an attribute stored on it outlives the request)
+    T("JWTToken.load_custom_claims", "idpyoidc.server.token.jwt_token:JWTToken.load_custom_claims", {"payload": "fresh"},
+      contract="param_or_fresh:payload", self_root="token_handler_obj"),
+    T("JWTToken.__call__", "idpyoidc.server.token.jwt_token:JWTToken.__call__",
+      {"session_id": "atom", "token_class": "atom", "usage_rules": "unknown", "profile": "atom", "with_jti": "atom",
+       "payload": "kwargs"}, self_root="token_handler_obj", local_callees={"profile": C("holds")}),
+    T("JWTToken.get_payload", "idpyoidc.server.token.jwt_token:JWTToken.get_payload", {"token": "atom"},
+      contract="fresh", self_root="token_handler_obj"),
+    T("JWTToken.info", "idpyoidc.server.token.jwt_token:JWTToken.info", {"token": "atom"},
+      contract="fresh", self_root="token_handler_obj"),
+    T("JWTToken.is_expired", "idpyoidc.server.token.jwt_token:JWTToken.is_expired", {"token": "atom", "when": "atom"},
+      self_root="token_handler_obj"),
+    T("DefaultToken.__call__", "idpyoidc.server.token:DefaultToken.__call__",
+      {"session_id": "atom", "token_class": "atom", "payload": "kwargs"}, self_root="token_handler_obj"),
+    T("DefaultToken.split_token", "idpyoidc.server.token:DefaultToken.split_token", {"token": "atom"},
+      contract="fresh", self_root="token_handler_obj"),
+    T("DefaultToken.info", "idpyoidc.server.token:DefaultToken.info", {"token": "atom"},
+      contract="fresh", self_root="token_handler_obj"),
+    T("DefaultToken.is_expired", "idpyoidc.server.token:DefaultToken.is_expired", {"token": "atom", "when": "atom"},
+      self_root="token_handler_obj"),
+    T("IDToken.__call__", "idpyoidc.server.token.id_token:IDToken.__call__",
+      {"session_id": "atom", "ttype": "atom", "encrypt": "atom", "code": "atom", "access_token": "atom", "usage_rules": "unknown",
+       "kwargs": "kwargs"}, self_root="token_handler_obj"),
+    T("IDToken.sign_encrypt", "idpyoidc.server.token.id_token:IDToken.sign_encrypt",
+      {"session_id": "atom", "client_id": "atom", "code": "atom", "access_token": "atom", "sign": "atom", "encrypt": "atom",
+       "lifetime": "atom", "extra_claims": "fresh", "user_info": "fresh"}, self_root="token_handler_obj"),
+    T("IDToken.payload", "idpyoidc.server.token.id_token:IDToken.payload",
+      {"session_id": "atom", "alg": "atom", "code": "atom", "access_token": "atom", "extra_claims": "fresh", "user_info": "fresh"},
+      contract="fresh", self_root="token_handler_obj"),
+    T("IDToken.info", "idpyoidc.server.token.id_token:IDToken.info", {"token": "atom"}, contract="fresh",
+      self_root="token_handler_obj"),
+    T("get_sign_and_encrypt_algorithms", "idpyoidc.server.token.id_token:get_sign_and_encrypt_algorithms",
+      {"context": "root:context", "client_info": "root:client_record", "payload_type": "atom", "sign": "atom", "encrypt": "atom"},
+      contract="fresh"),
+    T("include_session_id", "idpyoidc.server.token.id_token:include_session_id",
+      {"context": "root:context", "client_id": "atom", "where": "atom"}),
+    T("TokenHandler.get_handler", "idpyoidc.server.token.handler:TokenHandler.get_handler", {"token": "atom", "order": "atoms"},
+      self_root="token_handler"),
+    T("TokenHandler.info", "idpyoidc.server.token.handler:TokenHandler.info", {"item": "atom", "order": "atoms"},
+      self_root="token_handler"),
 ]
 # translated functions as callees of other translated functions (method / function name -> target name):
 # what the caller assumes about the result is the target's contract, which is re-checked on the target's flows
@@ -300,6 +346,12 @@ TRANSLATED_CALLEES = {
     "do_front_channel_logout_iframe": "do_front_channel_logout_iframe",
     "match_claim": "Registration.match_claim", "_introspect": "Introspection._introspect",
     "_enforce_resource_indicators_policy": "Authorization._enforce_resource_indicators_policy",
+    "load_custom_claims": "JWTToken.load_custom_claims", "get_payload": "JWTToken.get_payload",
+    "split_token": "DefaultToken.split_token", "sign_encrypt": "IDToken.sign_encrypt",
+    "get_sign_and_encrypt_algorithms": "get_sign_and_encrypt_algorithms", "include_session_id": "include_session_id",
+    "get_handler": "TokenHandler.get_handler",
+    # (by method name: cryptojwt's JWS.payload() is treated like IDToken.payload - a new object of unknown contents)
+    "payload": "IDToken.payload",
 }
 # candidates that were tried and are NOT translated (reported in the evidence)
 NOT_TRANSLATED = [
@@ -320,6 +372,9 @@ ASSUMED_CALLEES = {
     "_get_session_info": C("tuple:session_info,atom"), "mint_token": C("dyn:SessionToken", writes=["recv"]),
     "_mint_token": C("dyn:SessionToken", writes=["kw:grant"]), "register_usage": C(writes=["recv"]), "weed": C(writes=["recv"]),
     "allowed_request_algorithms": C(),
+    # token handlers: the handler's `profile` attribute is a Message class (a new message holding the keyword arguments);
+    # cryptojwt's JWT.unpack returns a new message per call; decrypt_session_id returns a new list of strings
+    "profile": C("holds"), "unpack": C("fresh"), "decrypt_session_id": C("fresh"),
 }
 
 
@@ -1385,7 +1440,7 @@ class Tr:
                 elif isinstance(t, (ast.Subscript, ast.Attribute)):
                     for s2, base in self.ev(s1, t.value):
                         if base[0] != "reg":
-                            raise Refuse("del on an immutable value (line %d)" % node.lineno)
+                            raise PathDead()     # del None[k] / del "..."[k]: Python raises TypeError here
                         if self.exempted(t):
                             s2.notes.append("exempted del (line %d)" % (self.first_line + node.lineno - 1))
                         else:
@@ -1499,7 +1554,44 @@ class Tr:
         return dedupe(outs)
 
     def st_While(self, s, node, sink):
-        raise Refuse("while loop (line %d)" % node.lineno)
+        """like `for` without a loop variable: the test is evaluated before every iteration and once more at the end"""
+        if sink is not None:
+            sink.append(s.clone())
+        fallthrough, broken, ended = [], [], []
+        cur = [s]
+        carried = self.carried(node) | {n.id for n in ast.walk(node.test) if isinstance(n, ast.Name)}
+        for it in range(self.t.get("iterations", 2) + 1):
+            nxt, again = [], []
+            for s0 in cur:
+                for s1 in self.test(s0, node.test):
+                    fallthrough.append(s1.clone())          # the test fails: the loop is left here
+                    if it == self.t.get("iterations", 2):
+                        continue
+                    before = self.summary(s1, carried)
+                    for s4 in self.block([s1], node.body, sink):
+                        if s4.done == "break":
+                            s4.done = None
+                            broken.append(s4)
+                            continue
+                        if s4.done == "continue":
+                            s4.done = None
+                        elif s4.done:
+                            ended.append(s4)
+                            continue
+                        nxt.append(s4)
+                        if self.summary(s4, carried) != before:
+                            again.append(s4)
+            # an iteration that changed nothing the checker knows is followed by the failing test only
+            for s4 in nxt:
+                if s4 not in again:
+                    fallthrough.extend(x.clone() for x in self.test(s4.clone(), node.test))
+            cur = dedupe(again)
+            if not cur:
+                break
+        outs = ended + broken
+        fallthrough = dedupe(fallthrough)
+        outs.extend(self.block(fallthrough, node.orelse, sink) if node.orelse else fallthrough)
+        return dedupe(outs)
 
     def st_With(self, s, node, sink):
         raise Refuse("with statement (line %d)" % node.lineno)
